@@ -1,10 +1,12 @@
 (* C03 - a synchronized pipeline computes the composition of its filters, frame for frame.
    Proved here: the process() result contract (None / {} / Frame / callable), the id carried from input to
    output, the empty set delivered as an empty set, the deferred result evaluated only by the send that
-   publishes.  The lossless edge and the chain composition over the network model are explored in
-   pipeline mode against the functional reference (C03_edge_lossless_partial, C03_chain_partial). *)
+   publishes, and THE LOSSLESS EDGE in receiver-local form (C03_edge_lossless, C03_edge_nothing_dropped): over a
+   FIFO loss-free channel from a well-formed publisher, a synchronized subscribe-all consumer is handed exactly
+   the published frames, in order, none skipped, whatever the interleaving.  The chain composition over the
+   network model is explored in pipeline mode against the functional reference (C03_chain_partial). *)
 From Coq Require Import ZArith List Bool Lia.
-From OF Require Import Base.Str Base.Val Proto.Wire Proto.Receiver Proto.Sender Proto.Sender_Safety Proto.MQGlue.
+From OF Require Import Base.Str Base.Val Proto.Wire Proto.Receiver Proto.Receiver_Order Proto.Sender Proto.Sender_Safety Proto.MQGlue Proto.Edge.
 Import ListNotations.
 Open Scope Z_scope.
 
@@ -83,3 +85,54 @@ Theorem C03_nonvacuous :
    VL [VS [115]; VL [VL [VI 5; VI 0]; VB false]; VB true; VL [VN; VI 6]]].
 Proof. reflexivity. Qed.
 Print Assumptions C03_nonvacuous.
+
+(* THE LOSSLESS EDGE.  A publisher emits groups (all data parts of one id, then the heartbeat carrying the topic
+   list), ids strictly increasing, topic names visible, distinct, non-empty.  The channel hands them to the
+   consumer's SUB socket in order ([fed]).  Everything else is arbitrary: when messages arrive relative to the
+   calls, what each poll reports and when, the timeouts, the clock, out-of-band traffic, PUSH back-pressure.
+   Then the frames handed to the application are exactly the first k published frames - id, topics, payloads. *)
+Theorem C03_edge_lossless :
+  forall gs cid ll its,
+    Forall group_wf gs -> ids_increasing MSG_ID_INITIAL_PREV gs -> fed (stream gs) its ->
+    exists k, frames (snd (rrun Repaired (init_receiver cid false ll [c0]) its)) = map frame_of (firstn k gs).
+Proof. exact edge_lossless. Qed.
+Print Assumptions C03_edge_lossless.
+
+(* ... and none of them is dropped on the floor: when everything published has been delivered and the consumer
+   (still alive) has read its socket empty, k is the number of published frames *)
+Theorem C03_edge_nothing_dropped :
+  forall gs, Forall group_wf gs -> ids_increasing MSG_ID_INITIAL_PREV gs ->
+  forall cid ll its st2 o2,
+    fed (stream gs) its -> rrun Repaired (init_receiver cid false ll [c0]) its = (st2, o2) ->
+    control st2 <> Dead -> rest_of (stream gs) its = [] -> (forall s, In s (srcs st2) -> queue s = []) ->
+    frames o2 = map frame_of gs.
+Proof. exact edge_drained_all. Qed.
+Print Assumptions C03_edge_nothing_dropped.
+
+(* Non-vacuity of the edge theorems: two frames (the first with two topics) arriving while the consumer is
+   between and inside calls, one call timing out in the middle of a frame: both are handed over, complete *)
+Definition ex_gs : list group :=
+  [ {| gid := 0; gsid := 9; parts := [([109], 10); ([100], 11)] |};
+    {| gid := 3; gsid := 9; parts := [([109], 12)] |} ].
+Definition ex_its : list ritem :=
+  let s := stream ex_gs in
+  [ IDeliver 0 (nth 0 s (hb_msg (hd {| gid := 0; gsid := 0; parts := [] |} ex_gs)));
+    ICall None (Some 5) 0; IPoll [0%nat] 0; IPoll [] 1; IPoll [] 9000000;     (* timed out holding half a frame *)
+    IDeliver 0 (nth 1 s (hb_msg (hd {| gid := 0; gsid := 0; parts := [] |} ex_gs)));
+    IDeliver 0 (nth 2 s (hb_msg (hd {| gid := 0; gsid := 0; parts := [] |} ex_gs)));
+    ICall None None 10000000; IPoll [0%nat] 10000000; IPoll [] 10000000;      (* frame 0 *)
+    IDeliver 0 (nth 3 s (hb_msg (hd {| gid := 0; gsid := 0; parts := [] |} ex_gs)));
+    IDeliver 0 (nth 4 s (hb_msg (hd {| gid := 0; gsid := 0; parts := [] |} ex_gs)));
+    ICall None None 20000000; IPoll [0%nat] 20000000; IPoll [0%nat] 20000000; IPoll [] 20000000;   (* stale heartbeat, frame 3 *)
+    ICall None (Some 1) 30000000; IPoll [0%nat] 30000000; IPoll [] 40000000; IPoll [] 50000000 ].
+Theorem C03_edge_nonvacuous :
+  Forall group_wf ex_gs /\ ids_increasing MSG_ID_INITIAL_PREV ex_gs /\ fed (stream ex_gs) ex_its /\
+  rest_of (stream ex_gs) ex_its = [] /\
+  (let '(st2, o2) := rrun Repaired (init_receiver 7 false false [c0]) ex_its in
+   control st2 = Idle /\ map queue (srcs st2) = [[]] /\ frames o2 = map frame_of ex_gs).
+Proof.
+  split.
+  { repeat constructor; cbn; try discriminate; intuition discriminate. }
+  split; [cbn; repeat split; reflexivity|]. split; [cbn; repeat (try (split; [reflexivity|]); try (eexists; split; [reflexivity|])); exact I|]. split; [reflexivity|]. vm_compute. auto.
+Qed.
+Print Assumptions C03_edge_nonvacuous.
